@@ -27,6 +27,18 @@ def _inNamespace(path, namespace):
     )
 
 
+def _argPathMatches(arg, value):
+    """
+    argNpath rule: the argument equals the rule value, or whichever of the two
+    ends in '/' is a prefix of the other
+    """
+    return (
+        arg == value
+        or (value.endswith('/') and arg.startswith(value))
+        or (arg.endswith('/') and value.startswith(arg))
+    )
+
+
 class Rule :
     """
     Represents a single match rule
@@ -74,7 +86,7 @@ class Rule :
 
             if hasattr(self, 'arg_paths'):
                 for idx, val in self.arg_paths:
-                    if idx >= len(body) or not body[idx].startswith(val):
+                    if idx >= len(body) or not _argPathMatches(body[idx], val):
                         return
 
             # XXX arg0namespace -- Not quite sure how this one works
